@@ -45,6 +45,13 @@ impl FlexiLogger {
     }
 }
 
+// The list of writer names within a target like "{Name1,Name2}"
+// (must not panic, whatever comes behind the opening brace)
+fn writer_names(target: &str) -> &str {
+    let names = target.strip_prefix('{').unwrap_or(target);
+    names.strip_suffix('}').unwrap_or(names)
+}
+
 impl log::Log for FlexiLogger {
     //  If other writers are configured and the metadata target addresses them correctly,
     //      - we should determine if the metadata-level is digested by any of the writers
@@ -59,7 +66,7 @@ impl log::Log for FlexiLogger {
 
         if !self.other_writers.is_empty() && target.starts_with('{') {
             // at least one other writer is configured _and_ addressed
-            let targets: Vec<&str> = target[1..(target.len() - 1)].split(',').collect();
+            let targets: Vec<&str> = writer_names(target).split(',').collect();
             for t in targets {
                 if t != "_Default" {
                     match self.other_writers.get(t) {
@@ -85,7 +92,7 @@ impl log::Log for FlexiLogger {
         let special_target_is_used = target.starts_with('{');
         if special_target_is_used {
             let mut use_default = false;
-            let targets: Vec<&str> = target[1..(target.len() - 1)].split(',').collect();
+            let targets: Vec<&str> = writer_names(target).split(',').collect();
             for t in targets {
                 if t == "_Default" {
                     use_default = true;
